@@ -17,7 +17,6 @@ NAMES = ["reply_expected", "tag", "dest_port", "dest_cpu", "src_port", "src_cpu"
          "src_x", "src_y", "data", "cmd_rc", "seq", "arg1", "arg2", "arg3"]
 WIDTH = {1: 8, 2: 3, 3: 5, 4: 3, 5: 5, 6: 8, 7: 8, 8: 8, 9: 8, 11: 16, 12: 16, 13: 32, 14: 32, 15: 32}
 DATA = 10
-MOD = 1000000007
 
 
 # ------------------------------------------------------------------ the documented layout, by hand
@@ -241,9 +240,9 @@ Definition show_sdp (p : sdp) :=
    data p).
 Definition show_scp (q : scp) := (show_sdp (sdp_part q), [cmd_rc q; seq q], [arg1 q; arg2 q; arg3 q]).
 Definition rmap {A B} (f : A -> B) (r : result A) : result B := bind r (fun a => Ok (f a)).
-Definition dg (h : Z) (bs : list Z) : Z := fold_left (fun h b => (h * 257 + b + 1) mod 1000000007) bs h.
+Definition dg (h : Z) (bs : list Z) : Z := fold_left (fun h b => Z.land (h * 257 + b + 1) 2305843009213693951) bs h.
 Definition dgr (h : Z) (r : result (list Z)) : Z :=
-  match r with Ok bs => dg h bs | _ => (h * 257 + 300) mod 1000000007 end.
+  match r with Ok bs => dg h bs | _ => Z.land (h * 257 + 300) 2305843009213693951 end.
 Fixpoint zrange_from (lo : Z) (n : nat) : list Z := match n with O => [] | S m => lo :: zrange_from (lo + 1) m end.
 Definition zrange (lo n : Z) : list Z := zrange_from lo (Z.to_nat n).
 Definition set_cmd (q : scp) v := {| sdp_part := sdp_part q; cmd_rc := v; seq := seq q; arg1 := arg1 q; arg2 := arg2 q; arg3 := arg3 q |}.
